@@ -111,3 +111,21 @@ func Config(accessor bool, log *CallLog) jsonpath.Config {
 	}
 	return c
 }
+
+// ConfigScramble is Config(accessor, nil) whose aggregate functions overwrite the slice they were
+// handed after computing their result: a library that hands a user function memory it does not own
+// (the caller's array, the pooled buffer) then shows a modified document / modified earlier results.
+func ConfigScramble(accessor bool) jsonpath.Config {
+	c := Config(accessor, nil)
+	for name, f := range aggImpl {
+		f := f
+		c.SetAggregateFunction(name, func(vs []interface{}) (interface{}, error) {
+			r, err := f(vs)
+			for i := range vs {
+				vs[i] = "SCRAMBLED"
+			}
+			return r, err
+		})
+	}
+	return c
+}
